@@ -58,5 +58,5 @@ AtIsPlain == n <= 14 => \A f \in Families : Visits_asCodedFastAt(FC(f), CfgOf(64
 EmitDocs == /\ \A f \in Families : (f = "fanout" => n <= MaxFan) => PrintT(<<"REPLAY", f, n, ToJson(Family(f, n))>>)
             \* requests above a recursion limit (the driver pairs them with the limits they exceed) and the directive-limit pair
             /\ \A f \in RefusedFamilies : n >= 9 => PrintT(<<"REPLAY", f, n, ToJson(Family(f, n))>>)
-            /\ \A f \in {"dirfirst", "dirlast"} : n <= 11 => PrintT(<<"REPLAY", f, n, ToJson(Family(f, n))>>)
+            /\ \A f \in {"dirfirst", "dirlast"} : n <= 15 => PrintT(<<"REPLAY", f, n, ToJson(Family(f, n))>>)
 =============================================================================
